@@ -39,7 +39,9 @@ PROPS = {
                         'ties d <= -margin fall back to node-id order'],
     },
     'C07': {
-        'verus': {'store': KEYS + ['Writer::add_item', 'Writer::append_item', 'Writer::del_item', 'Writer::clear']},
+        'verus': {'store': KEYS + ['Writer::add_item', 'Writer::append_item', 'Writer::del_item', 'Writer::clear'],
+                  'writer_scans': ['Writer::item_indices', 'Writer::reset_and_retrieve_updated_items', 'Writer::clear_db_and_create_a_single_leaf',
+                                   'Writer::prepare_changing_distance', 'clear_tree_nodes', 'lemma_tree_range']},
         'kani': {'quick': [('key_layout', KEY_LAYOUT_ALL)]},
         'not_decided': [],
     },
@@ -62,7 +64,7 @@ PROPS = {
                         'NodeCodec::bytes_decode of leaf / split values (CBMC does not finish on the boxed-error path); its parts NodeId::from_bytes, the tags and the vector size checks are proved'],
     },
     'C05': {
-        'verus': {'store': KEYS + STORE_W, 'reader_open': KEYS + STORE_R},
+        'verus': {'store': KEYS + STORE_W, 'reader_open': KEYS + STORE_R, 'writer_scans': ['Writer::item_indices', 'NodeId::unwrap_item']},
         'kani': {'quick': [('key_layout', ['key_byte_order_is_tuple_order', 'prefix_selects_exactly_its_index_and_kind']),
                            ('f32_codec', ['f32_from_slice_roundtrip_is_bit_exact', 'f32_from_vec_is_bit_exact']),
                            ('bq_codec', ['bq_roundtrip_len_3', 'bq_from_slice_len_65'])]},
@@ -70,7 +72,8 @@ PROPS = {
     },
     'C06': {
         'verus': {'store': KEYS + ['Writer::add_item', 'Writer::append_item', 'Writer::del_item', 'Writer::clear', 'Writer::need_build'],
-                  'reader_open': KEYS + ['Reader::open']},
+                  'reader_open': KEYS + ['Reader::open'],
+                  'writer_scans': ['Writer::reset_and_retrieve_updated_items', 'clear_tree_nodes', 'Writer::prepare_changing_distance', 'Writer::clear_db_and_create_a_single_leaf']},
         'kani': {'quick': [('key_layout', ['prefix_selects_exactly_its_index_and_kind'])]},
         'not_decided': [],
     },
@@ -82,9 +85,17 @@ PROPS = {
         'not_decided': ['the second sentence of C13 (a build yields a C01 forest for every thread-pool size) beyond: the contracts of the per-tree functions never depend on the order in which other threads run'],
     },
     'C15': {
-        'verus': {'tree_count': ['Writer::fit_in_descendant', 'target_n_trees']},
+        'verus': {'tree_count': ['Writer::fit_in_descendant', 'target_n_trees'], 'writer_scans': ['Writer::clear_db_and_create_a_single_leaf']},
         'trusted': ['the f64 hysteresis test of target_n_trees is an uninterpreted boolean'],
         'not_decided': ['reader-visible tree count and bucket bound after a whole build: decided by the build-chain units (delete_extra_trees, missing-tree loop, bucket clauses) where claimed'],
+    },
+    'C18': {
+        'verus': {'writer_scans': KEYS + ['Writer::prepare_changing_distance', 'clear_tree_nodes'], 'store': ['Writer::need_build'], 'reader_open': ['Reader::open']},
+        'kani': {'quick': [('distance_side', ['metric_names_are_reference_strings'])]},
+        'trusted': ['two uninterpreted metrics Dist / NDist stand for every ordered pair of the 7 metrics; the TypeId test is an uninterpreted boolean',
+                    'requires items_are_leaves (an Item key always holds a leaf) — representation invariant of the item store'],
+        'not_decided': ['after building, the index is valid and searchable under the new metric: follows from the build-chain units (C01/C02) on the "no metadata, no tree key" branch where claimed',
+                        'vectors "as representable under the new metric": the value is ND::enc(truncate(D::dec(old), dims)); what enc/dec do per codec is C05/C12'],
     },
     'C19': {
         'verus': {'store': KEYS + ['Writer::add_item', 'Writer::append_item', 'Writer::del_item'],
